@@ -157,9 +157,9 @@ def _work_clocks(task) -> core.Part:
     p = core.Part()
     inputs = []
     for y, mo, d in ((1, 1, 1), (1, 1, 2), (9999, 12, 31), (9999, 12, 30), (2024, 2, 29)):
-        for (h, mi, sec) in ((0, 0, 0), (0, 35, 30), (11, 59, 59), (12, 0, 0), (23, 24, 30), (23, 59, 59)):
+        for (h, mi, sec) in (((0, 0, 0), (0, 35, 30), (23, 24, 30), (23, 59, 59)) if _QUICK else ((0, 0, 0), (0, 35, 30), (11, 59, 59), (12, 0, 0), (23, 24, 30), (23, 59, 59))):
             for dev in (None, -720, -60, -1, 0, 1, 60, 720):
-                for hund in (0xFF, 0, 99):
+                for hund in ((0xFF,) if _QUICK else (0xFF, 0, 99)):
                     f = (y, mo, d, h, mi, sec, hund, dev, 0, 0xFF)
                     for _, _, msg in C10.messages_at(position, f):
                         inputs.append(msg)
@@ -176,7 +176,7 @@ def _work_words(task) -> core.Part:
 
     p = core.Part()
     inputs = []
-    for w in cosemx.code_words(24)[lo::step * (3 if _QUICK else 1)]:
+    for w in cosemx.code_words(24)[lo::step * (4 if _QUICK else 1)]:
         for form in (w, "1-0:1.8.0(" + w + ")\r\n", w + "(1)\r\n", "1-0:1.8.0(1*" + w + ")\r\n", "0-0:1.0.0(" + w + ")\r\n"):
             inputs.append(form.encode("ascii", "replace"))
     p.add("nontrivial", len(inputs))
